@@ -167,11 +167,26 @@ func Run() string {
 	ov2 := []int{1, 2, 3, 4}
 	copy(ov2[:3], ov2[1:])
 	sb.WriteString("ovl=" + itoa(ov[0]) + itoa(ov[1]) + itoa(ov[2]) + itoa(ov[3]) + "," + itoa(ov2[0]) + itoa(ov2[1]) + itoa(ov2[2]) + itoa(ov2[3]) + ";")
+	// a struct assigned as a whole keeps its identity: x = T{f: x.f} reads the old field and clears the rest;
+	// a pointer to a field taken before the assignment still points into the variable
+	rs := &reset{keep: &rect{2, 5}, n: 7, list: []int{1}}
+	pn := &rs.n
+	rs.clear()
+	*pn += 3
+	sb.WriteString("whole=" + itoa(rs.keep.area()) + "," + itoa(rs.n) + "," + itoa(len(rs.list)) + ";")
 	return sb.String()
 }
+
+type reset struct {
+	keep shape
+	n    int
+	list []int
+}
+
+func (r *reset) clear() { *r = reset{keep: r.keep, list: []int{}} }
 `
 
-const machSelfTestWant = "area=24;alias=2,2;runes=xz,xz,cap2;map=abc20;sq=4,7,12;node=9,2,9;div=-1,true,3,false;str=4,10,A,ж;int=4,0,3,-4;copy=1,9,6;ovl=1123,2344;"
+const machSelfTestWant = "area=24;alias=2,2;runes=xz,xz,cap2;map=abc20;sq=4,7,12;node=9,2,9;div=-1,true,3,false;str=4,10,A,ж;int=4,0,3,-4;copy=1,9,6;ovl=1123,2344;whole=10,3,0;"
 
 type loadedImporter struct{ c *Ctx }
 
